@@ -73,4 +73,66 @@ TrajVerdict(c, o) ==
   ELSE IF \E k \in DOMAIN o.est : ~SameTraj(EstOut(c)[k], o.est[k], c.export = "tum") THEN "ExportedTrajectoryNotAsDocumented"
   ELSE IF c.useref /\ (Len(o.ref) # 1 \/ ~SameTraj(RefOut(c)[1], o.ref[1], c.export = "tum")) THEN "ReferenceNotOnlyFilteredAndProjected"
   ELSE "ok"
+
+\* ------------------------------------------------------------------------------------------------------------------
+\* evo_ape / evo_rpe on files (C01 / C02, last sentences):  load -> downsample and motion filter (both) -> crop the
+\* reference to [t_start, t_end] -> associate (max diff, offset added to the estimate's stamps) -> align -> project ->
+\* metric -> (unit) -> stored error_array / timestamps
+DownN(T, n) ==       \* even spacing; only used where the spacing is exact
+  IF n = 0 \/ N(T) <= n THEN T
+  ELSE IF n = 1 THEN DocReduce(T, <<1>>)
+  ELSE DocReduce(T, [k \in 1..n |-> 1 + ((k - 1) * (N(T) - 1)) \div (n - 1)])
+DownExact(T, n) == n = 0 \/ N(T) <= n \/ n = 1 \/ \A k \in 1..n : ((k - 1) * (N(T) - 1)) % (n - 1) = 0
+CropT(T, lo, hi) == DocReduce(T, IdsWhere(N(T), LAMBDA k : T.stamps[k] >= lo /\ T.stamps[k] <= hi))
+NearOff(ref, T, md, off) == Near(ref, Shift(T, off), md)
+\* q: down, mf, lo, hi (crop of the reference; -1000 / 1000 = not given), md, off, mode, nalign (0 = all), plane, rel, delta, allpairs
+ProcRef(c) == LET r1 == MFilt(DownN(c.ref, c.q.down), c.q.mf) IN
+              IF c.q.lo = -1000 /\ c.q.hi = 1000 THEN r1
+              ELSE CropT(r1, IF c.q.lo = -1000 THEN r1.stamps[1] ELSE c.q.lo, IF c.q.hi = 1000 THEN r1.stamps[N(r1)] ELSE c.q.hi)
+ProcEst(c) == MFilt(DownN(c.est, c.q.down), c.q.mf)
+PairsRE(c) == NearOff(ProcRef(c), ProcEst(c), c.q.md, c.q.off)
+SyncedRef(c) == DocReduce(ProcRef(c), IdsWhere(N(ProcRef(c)), LAMBDA i : \E pr \in PairsRE(c) : pr[1] = i))
+SyncedEst(c) == DocReduce(ProcEst(c), IdsWhere(N(ProcEst(c)), LAMBDA j : \E pr \in PairsRE(c) : pr[2] = j))
+\* alignment determined from the first n pose pairs only (n = 0: all): the similarity (g, s, t) with est_k = s g ref_k + t for k <= n
+FitsN(T, ref, n) == {gst \in O24 \X (1..4) \X {VSub(T.poses[1].p, VScale(x[2], Act(x[1], ref.poses[1].p))) : x \in O24 \X (1..4)} :
+                       \A k \in 1..n : T.poses[k].p = VAdd(VScale(gst[2], Act(gst[1], ref.poses[k].p)), gst[3])}
+AlignN(T, ref, mode, n) ==
+  LET f == CHOOSE x \in FitsN(T, ref, n) : TRUE
+      g == f[1]  s == f[2]  t == f[3] IN
+  IF mode = "scale" THEN MapPoses(T, LAMBDA P : Pose(P.r, <<P.p[1] \div s, P.p[2] \div s, P.p[3] \div s>>))
+  ELSE MapPoses(T, LAMBDA P : InvSimPose(Pose(g, t), s, P))
+AlignNDefined(T, ref, mode, n) ==
+  /\ n <= N(T) /\ N(T) = N(ref) /\ FitsN(T, ref, n) # {}
+  /\ LET f == CHOOSE x \in FitsN(T, ref, n) : TRUE IN
+       IF mode = "scale" THEN DivisibleBy(T, f[2]) ELSE InvDivides(T, Pose(f[1], f[3]), f[2])
+AlignedEst(c) == IF c.q.nalign = 0 THEN AlignStage(SyncedEst(c), SyncedRef(c), c.q.mode)
+                 ELSE AlignN(SyncedEst(c), SyncedRef(c), c.q.mode, c.q.nalign)
+FinalEst(c) == ProjStage(AlignedEst(c), c.q.plane)
+FinalRef(c) == ProjStage(SyncedRef(c), c.q.plane)
+PoseErr(rel, R, E) ==      \* definition of C01 on one reference / estimate pose (squares for lengths / norms, degrees for angles)
+  LET D == PRel(E, R) IN
+  CASE rel = "trans" -> Dist2(R.p, E.p) [] rel = "deg" -> AngDeg(D.r) [] rel = "rotpart" -> FrobI2(D.r) [] rel = "full" -> FrobI2(D.r) + Dist2(R.p, E.p)
+ApeExpected(c) == [k \in 1..N(FinalEst(c)) |-> PoseErr(c.q.rel, FinalRef(c).poses[k], FinalEst(c).poses[k])]
+RpeExpected(c) ==       \* delta in frames: all pairs (i, i+d) or the chain 0 -> d -> 2d ...
+  LET n == N(FinalEst(c))  d == c.q.delta
+      starts == IF c.q.allpairs THEN [k \in 1..(IF n - d > 0 THEN n - d ELSE 0) |-> k] ELSE [k \in 1..((n - 1) \div d) |-> (k - 1) * d + 1]
+  IN [k \in DOMAIN starts |->
+        LET i == starts[k]  j == i + d
+            Q == PRel(FinalRef(c).poses[i], FinalRef(c).poses[j])  P == PRel(FinalEst(c).poses[i], FinalEst(c).poses[j]) IN
+        \* point distance: difference of the straight-line distances (positions only - also defined after a projection
+        \* that leaves orientations undetermined); lengths must be integers there
+        IF c.q.rel = "pdist" THEN Abs(ISqrt(Dist2(FinalRef(c).poses[i].p, FinalRef(c).poses[j].p)) - ISqrt(Dist2(FinalEst(c).poses[i].p, FinalEst(c).poses[j].p)))
+        ELSE PoseErr(c.q.rel, Q, P)]
+RpeStamps(c) == LET n == N(FinalEst(c))  d == c.q.delta
+                    ends == IF c.q.allpairs THEN [k \in 1..(IF n - d > 0 THEN n - d ELSE 0) |-> k + d] ELSE [k \in 1..((n - 1) \div d) |-> k * d + 1]
+                IN [k \in DOMAIN ends |-> FinalEst(c).stamps[ends[k]]]
+NoFree(T) == \A k \in 1..N(T) : T.poses[k].r # FREE
+MetricVerdict(c, o) ==
+  IF o.out # "ok" THEN "ToolFailed"
+  ELSE IF c.tool = "ape" THEN
+       (IF Len(o.err) # N(FinalEst(c)) THEN "NotTheRemainingPosePairs"
+        ELSE IF o.ts # FinalEst(c).stamps THEN "NotTheRemainingPosePairs"
+        ELSE IF o.err # ApeExpected(c) THEN "StoredValuesNotTheDefinitionOnProcessedTrajectories" ELSE "ok")
+  ELSE (IF o.ts # RpeStamps(c) THEN "NotTheSelectedPairs"
+        ELSE IF o.err # RpeExpected(c) THEN "StoredValuesNotTheDefinitionOnProcessedTrajectories" ELSE "ok")
 ==============================================================================
